@@ -168,6 +168,9 @@ func generate(t *testing.T, prop, tier string, seed uint64, verbose bool, journa
 			b, _ := json.Marshal(cfg)
 			os.Stdout.WriteString("CONFIG " + string(b) + "\n")
 		}
+		// what kind of target the run has: should the process die in this run, the driver has to know whether the
+		// death falls under the property's clause (C11: "does not crash the process for trivially low targets")
+		os.Stdout.WriteString("NOTE " + cfg.TargetNote + "\n")
 		return powsim.Run(t, cfg, nil, false, journal)
 	}
 	if prop == "C02" {
